@@ -129,15 +129,17 @@ def main():
         evaluate(R, "rec", "rec_bad", "list (Z * Z) * Z", "recover_ok",
                  [(c["id"], "(%s, %s)" % ("[" + "; ".join("(%d, %s)" % (i, v) for i, v in zip(c["ids"], c["vals"])) + "]", c["result"])) for c in rec],
                  "RecoverSecret differs from recoverZ", {c["id"]: c for c in rec})
-        evaluations += len(lag) + len(sp) + len(se) + len(rec) + o.get("group_evals", 0) + o.get("history_calls", 0) + o.get("failure_history_calls", 0)
+        evaluations += len(lag) + len(sp) + len(se) + len(rec) + o.get("group_evals", 0) + o.get("history_calls", 0) + o.get("failure_history_calls", 0) + o.get("far_id_calls", 0) + o.get("alias_sequences", 0)
         dist.update(o.get("dist") or {})
         dist["group_kinds"] = o.get("group_kinds")
         dist["degenerate_substitutions_expected_to_verify"] = o.get("degenerate_expected_verifies")
         dist["history_independence"] = {"sequences": o.get("history_blocks"), "calls": o.get("history_calls"), "by": o.get("history_stats")}
+        dist["input_aliasing_sequences"] = o.get("alias_sequences")
+        dist["large_wrapped_negative_share_id_calls"] = o.get("far_id_calls")
         dist["history_independence_after_failing_calls"] = {"sequences": o.get("failure_history_sequences"), "calls": o.get("failure_history_calls"), "by": o.get("failure_history_stats")}
         dist["model_comparisons"] = {"lagrange_sets": len(lag), "lagrange_coefficients": sum(len(c["ids"]) for c in lag),
                                      "split_insecure": len(sp), "split_csprng": len(se), "recover": len(rec)}
-        R.coverage["distinct_nontrivial"] += o.get("distinct_scenarios", 0) + len(lag) + len(sp) + len(se) + len(rec) + o.get("history_blocks", 0) + o.get("failure_history_sequences", 0)
+        R.coverage["distinct_nontrivial"] += o.get("distinct_scenarios", 0) + len(lag) + len(sp) + len(se) + len(rec) + o.get("history_blocks", 0) + o.get("failure_history_sequences", 0) + o.get("far_id_calls", 0) + o.get("alias_sequences", 0)
         R.add_samples(o.get("samples") or [], 2)
         if lag:
             R.add_samples([lag[len(lag) // 2]], 1)
@@ -177,6 +179,10 @@ def main():
                           "(malformed G1/G2 point or scalar >= r at each position next to valid entries of another key set under colliding and non-colliding ids, id 0, negative id, empty map, bad threshold, rejecting reader) "
                           "is run back to back with honest calls on one goroutine, >= 64 times per template, in both orders and in bursts (some sequences under GOMAXPROCS=1); every honest result must equal the independently recomputed value "
                           "(big.Int Lagrange / polynomial evaluation), every failing call must repeat its outcome. "
+                          "input aliasing: every message buffer, key / signature slice and share map handed to a call is overwritten in place after the call returned and further calls are made with the mutated content from the same and from fresh slices "
+                          "(Sign, partials + ThresholdAggregate, Verify, VerifyAggregate, Aggregate, RecoverSecret, RecoverPubkey); every result must be that of the CURRENT content (references from un-aliased calls, cross-checked by Verify; one sequence = one evaluation). "
+                          "share ids: besides 1..10, ids i +- 256k, 2^16+i, 2^31-1, 2^31+i, 2^32+i and negative ids (Lagrange coefficient sets compared in Coq over Z; a share filed under such a far index must give exactly the model's value in RecoverSecret / RecoverPubkey / ThresholdAggregate and must not verify), "
+                          "and splits with 300 shares (exact shares for every id in Go and in Coq, recovery from ids beyond 255). "
                           "model comparisons: one per id set (Lagrange coefficients, all subsets of 1..7 quick / 1..10 thorough), per scripted split, per CSPRNG split, per sampled RecoverSecret (also below threshold), "
                           "per verifySharesReconstruct call; every one is a distinct input")
     R.coverage["input_distribution"] = dist
